@@ -14,12 +14,14 @@ KINDS = ["ssd", "ssd", "dsd", "dsd", "sdd", "ddd", "mmb", "mmbx", "hfe1", "hfe2"
 def surface_for(tag, tracks=40, spt=10):
     title = ("T%s" % tag).encode()[:12]
     body = {"kind": "rand", "seed": sum(tag.encode()) * 131 + len(tag)}
-    ent = {"name": b"F", "dir": ord("$"), "locked": False, "load": 0, "exec": 0, "length": 333, "start": 2,
+    # long enough to leave track 0 (and track 1 on 10-sector discs): what tells the two sides of an interleaved image,
+    # or neighbouring MMB slots, apart is where the LATER tracks come from
+    ent = {"name": b"F", "dir": ord("$"), "locked": False, "load": 0, "exec": 0, "length": 5000, "start": 2,
            "body": body}
     total = min(tracks * spt, 1023) if spt == 10 else 720
     s = {"variant": "acorn", "tracks": tracks, "spt": spt, "fill": {"kind": "zero", "seed": 0},
          "volumes": [{"label": None, "title": title, "cycle": 0, "boot": 0, "total": total, "cats": [[ent]]}]}
-    return s, title, disc.expand(body, 333)
+    return s, title, disc.expand(body, 5000)
 
 
 def opposite(m):
